@@ -144,6 +144,13 @@ def evaluate(case, res, mon, sched_name):
     if last["outcome"] != "UnexpectedJobFailureError" and last.get("stage_state") != "failed":
         raise Violation("failed-component-but-stage-not-failed",
                         "[%s] failed=%s outcomes=%s" % (sched_name, failed, res.stage_outcomes))
+    if fstage is not None and fstage == last["stage"] and not str(last.get("stage_state")).startswith("error:") \
+            and last.get("stage_state") != "failed":
+        # "the stage containing it reported as failed": the exception of run() is one report, the stage state (what
+        # Controller.stageState() and the status file show) is the other
+        raise Violation("failed-component-but-stage-state-not-failed",
+                        "[%s] failed=%s in stage %d whose state reads %r; outcomes=%s" % (
+                            sched_name, failed, fstage, last.get("stage_state"), res.stage_outcomes))
     bad = {r: (res.states[r], expected[r]) for r in in_run_stages
            if res.states[r] not in (expected[r], SHUTDOWN)}
     if bad:
